@@ -278,6 +278,10 @@ type Association struct {
 	myNextRSN        uint32
 	reconfigs        map[uint32]*chunkReconfig
 	reconfigRequests map[uint32]*paramOutgoingResetRequest
+	// Streams removed from the map by an incoming reset whose reassembly queue
+	// still holds data the application has not read yet: those bytes still
+	// occupy the receive buffer.
+	detachedStreams []*Stream
 	// Request sequence number of the newest outgoing reset request of the
 	// peer that has been performed, per stream identifier.
 	performedResetRSN map[uint16]uint32
@@ -2608,6 +2612,20 @@ func (a *Association) getMyReceiverWindowCredit() uint32 {
 		bytesQueued += uint32(s.getNumBytesInReassemblyQueue()) //nolint:gosec // G115
 	}
 
+	// Unread data of streams that were reset by the peer still counts until
+	// the application has read it.
+	kept := a.detachedStreams[:0]
+	for _, s := range a.detachedStreams {
+		if n := s.getNumBytesInReassemblyQueue(); n > 0 {
+			bytesQueued += uint32(n) //nolint:gosec // G115
+			kept = append(kept, s)
+		}
+	}
+	for i := len(kept); i < len(a.detachedStreams); i++ {
+		a.detachedStreams[i] = nil
+	}
+	a.detachedStreams = kept
+
 	if bytesQueued >= a.maxReceiveBufferSize {
 		return 0
 	}
@@ -3781,6 +3799,9 @@ func (a *Association) resetStreamsIfAny(resetRequest *paramOutgoingResetRequest)
 			a.lock.Lock()
 			a.log.Debugf("[%s] deleting stream %d", a.name, id)
 			delete(a.streams, s.streamIdentifier)
+			if s.getNumBytesInReassemblyQueue() > 0 {
+				a.detachedStreams = append(a.detachedStreams, s)
+			}
 		}
 		delete(a.reconfigRequests, resetRequest.reconfigRequestSequenceNumber)
 	} else {
